@@ -30,12 +30,14 @@ import (
 )
 
 const (
-	c17ReloadWho   = 1000
-	c17TableProbe  = 64 // VerifReset clears the slots below this number (scenario numbers are < 16)
-	c17OOBBase     = int(base.MaxClientNumber)
-	c17HangTimeout = 20 * time.Second
-	c17MaxHangs    = 3 // after that many hanging scenarios the generator stops (each one costs the timeout)
-	c17SettleSpin  = 40 * time.Microsecond
+	c17ReloadWho        = 1000
+	c17TableProbe       = 64 // VerifReset clears the slots below this number (scenario numbers are < 16)
+	c17OOBBase          = int(base.MaxClientNumber)
+	c17HangTimeout      = 10 * time.Second
+	c17HangTimeoutAgain = 3 * time.Second
+	c17MaxHangs         = 2               // after that many hanging / stuck scenarios the generator stops (each one costs the timeout)
+	c17LockProbe        = 3 * time.Second // a free write lock must be obtained within this time
+	c17SettleSpin       = 40 * time.Microsecond
 )
 
 // thread status (the harness' expectation)
@@ -129,6 +131,8 @@ type c17Scenario struct {
 	nextRec    int64
 	tokens     []string
 	hang       bool
+	stuck      bool // the write lock cannot be obtained although no call is in progress
+	sawFailed  bool // a reload with an invalid / incompatible configuration was started
 	reuse      bool
 	oob        bool
 	// failed-reload oracle
@@ -344,9 +348,42 @@ func c17NewScenario(env *c17Env, nthr, maxn int) *c17Scenario {
 	env.mu.Lock()
 	env.cur = sc
 	env.mu.Unlock()
-	env.orc.VerifReset(g0, c17TableProbe)
+	if !c17LockWithDeadline(env, func() { env.orc.VerifReset(g0, c17TableProbe) }) {
+		// an earlier scenario left the orchestrator's lock held for ever: continue on a new orchestrator
+		env = c17ReplaceEnv(env)
+		sc.env = env
+		env.mu.Lock()
+		env.cur = sc
+		env.mu.Unlock()
+		env.orc.VerifReset(g0, c17TableProbe)
+	}
 	sc.succ0, sc.fail0 = run.VerifReloadCounts()
 	return sc
+}
+
+// c17LockWithDeadline runs fn (which needs the orchestrator's write lock) and reports whether it returned in time;
+// no wait of the harness is unbounded
+func c17LockWithDeadline(env *c17Env, fn func()) bool {
+	done := make(chan struct{})
+	go func() {
+		fn()
+		close(done)
+	}()
+	select {
+	case <-done:
+		return true
+	case <-time.After(c17LockProbe):
+		return false
+	}
+}
+
+// c17ReplaceEnv abandons an orchestrator that is stuck behind its lock
+func c17ReplaceEnv(old *c17Env) *c17Env {
+	env := c17NewEnv()
+	env.lk = old.lk
+	env.nbad = old.nbad + 1
+	c17env = env
+	return env
 }
 
 func (sc *c17Scenario) tok(s string) { sc.tokens = append(sc.tokens, s) }
@@ -376,8 +413,12 @@ func (sc *c17Scenario) launch(th *c17Thread, fn func()) {
 
 // await waits until th has parked or finished once more than already consumed; returns "park", "done" or "hang"
 func (sc *c17Scenario) await(th *c17Thread) string {
-	deadline := time.Now().Add(c17HangTimeout)
-	timer := time.AfterFunc(c17HangTimeout+time.Second, func() {
+	to := c17HangTimeout
+	if sc.env != nil && sc.env.nbad > 0 {
+		to = c17HangTimeoutAgain // something is wrong already: do not spend the long timeout again and again
+	}
+	deadline := time.Now().Add(to)
+	timer := time.AfterFunc(to+200*time.Millisecond, func() {
 		sc.mu.Lock()
 		sc.cond.Broadcast()
 		sc.mu.Unlock()
@@ -560,6 +601,9 @@ func (sc *c17Scenario) doReload(kind int, auto bool) {
 	}
 	th := sc.rl
 	th.auto = auto
+	if kind != 0 {
+		sc.sawFailed = true
+	}
 	sc.mu.Lock()
 	sc.rlOK = kind == 0
 	sc.rlKind = kind
@@ -942,8 +986,14 @@ func (sc *c17Scenario) render() (string, []Fail) {
 	}
 	prefix := "c17:"
 	desc := sc.describe()
-	if sc.hang {
+	if sc.hang && !sc.sawFailed {
 		fails = append(fails, Fail{"c17:hang", "a goroutine neither parked nor returned within the timeout: " + desc})
+	}
+	if (sc.hang || sc.stuck) && sc.sawFailed {
+		fails = append(fails, Fail{"c17:stuck-after-failed-reload",
+			"after a reload with an invalid / incompatible configuration the orchestrator's lock is never released (calls block for ever): " + desc})
+	} else if sc.stuck {
+		fails = append(fails, Fail{"c17:lock-leaked", "no call is in progress but the orchestrator's write lock cannot be obtained: " + desc})
 	}
 	if len(deadRecs) > 0 {
 		fails = append(fails, Fail{prefix + "dead-pipeline", deadRecs[0] + ": " + desc})
@@ -974,6 +1024,8 @@ func (sc *c17Scenario) render() (string, []Fail) {
 	switch {
 	case sc.hang:
 		class = "hang"
+	case sc.stuck:
+		class = "stuck"
 	case panics:
 		class = "panic"
 	case dead:
@@ -1036,6 +1088,7 @@ func c17RunScenario(c *Case) (string, []Fail) {
 		return "badcase", nil
 	}
 	sc := c17NewScenario(env, nthr, maxn)
+	env = sc.env
 	ops := c.Z[2:]
 	for i := 0; i+3 < len(ops) && !sc.hang; i += 4 {
 		sc.applyOp(int(ops[i]), int(ops[i+1]), int(ops[i+2]), ops[i+3] != 0)
@@ -1043,18 +1096,35 @@ func c17RunScenario(c *Case) (string, []Fail) {
 	if !sc.hang {
 		sc.drain()
 	}
+	if !sc.hang && sc.quiet() {
+		// no call is in progress: the write lock must be free (a reload that returned with the lock held would
+		// block every later Accept / Tick / Close / NewSink / reload for ever)
+		cur := env.orc.VerifPeekDownstream()
+		if !c17LockWithDeadline(env, func() { env.orc.VerifReset(cur, 0) }) {
+			sc.stuck = true
+		}
+	}
 	out, fails := sc.render()
-	if sc.hang {
+	if sc.hang || sc.stuck {
 		// the orchestrator may be stuck behind its lock: let everything run out and use a new one
 		sc.abort()
-		time.Sleep(50 * time.Millisecond)
-		env.nbad++
-		lk := env.lk
-		c17env = c17NewEnv()
-		c17env.lk = lk
-		c17env.nbad = env.nbad
+		time.Sleep(20 * time.Millisecond)
+		c17ReplaceEnv(env)
 	}
 	return out, fails
+}
+
+// quiet: no API call and no reload is in progress
+func (sc *c17Scenario) quiet() bool {
+	if sc.rlState != rlIdle || len(sc.pend) > 0 || len(sc.store) > 0 {
+		return false
+	}
+	for _, th := range sc.threads {
+		if th.status != thIdle && th.status != thDead {
+			return false
+		}
+	}
+	return sc.rl.status == thIdle || sc.rl.status == thDead
 }
 
 // c17ProbeVariant finds out whether NewSink calls downstream.NewSink while holding the read lock (current code)
@@ -1068,8 +1138,27 @@ func c17ProbeVariant(env *c17Env) bool {
 	sc.mu.Lock()
 	sc.rlOK = true
 	sc.mu.Unlock()
+	env = sc.env
 	sc.launch(th, func() { env.orc.VerifReload() })
-	sc.await(th) // parked in initiate
+	// parked in initiate (bounded wait: a reload that takes the lock first never gets there; the scenarios will tell)
+	reached := false
+	for t0 := time.Now(); time.Since(t0) < 2*time.Second; time.Sleep(time.Millisecond) {
+		sc.mu.Lock()
+		p := th.parks > th.seenPark
+		if p {
+			th.seenPark++
+		}
+		sc.mu.Unlock()
+		if p {
+			reached = true
+			break
+		}
+	}
+	if !reached {
+		sc.abort()
+		time.Sleep(100 * time.Millisecond)
+		return true
+	}
 	th.release <- struct{}{}
 	// does it reach the Shutdown gate (no sink in the table yet) although NewSink is in flight?
 	deadline := time.Now().Add(300 * time.Millisecond)
